@@ -405,6 +405,12 @@ func (w *authWorld) RoundTrip(req *http.Request) (*http.Response, error) {
 	w.clock++
 	rec.exit = w.clock
 	resp := func(status int, hdr http.Header, b string) (*http.Response, error) {
+		if err := req.Context().Err(); err != nil {
+			// the caller went away while the exchange was under way: the server has done its
+			// part, the client - like a real transport - gets the context's error
+			rec.status = -status
+			return nil, err
+		}
 		rec.status = status
 		if hdr == nil {
 			hdr = http.Header{}
